@@ -180,6 +180,10 @@ type ExecutionPayloadHeader struct {
 }
 
 func (s *ExecutionPayloadHeader) View() *ExecutionPayloadHeaderView {
+	// the addresses of the root fields become tree leaves below: take them from a private copy, so that the
+	// view (and a state it is stored in) does not alias the caller's struct
+	cp := *s
+	s = &cp
 	ed, err := s.ExtraData.View()
 	if err != nil {
 		panic(err)
